@@ -80,6 +80,12 @@ var c06Templates = []string{
 	`($r := $random(); $r >= 0 and $r < 1) ? tag : "random out of range"`,
 	`$string($sort($shuffle(arr))) & tag`,
 	`$sum($shuffle($append(arr, [n, n, n]))) + $count($shuffle(items))`,
+	// every goroutine renders in its own time zone
+	`$fromMillis(n * 86400000 + 45000000, "[Y0001]-[M01]-[D01] [H01]:[m01] [Z]", tz) & tag`,
+	`$toMillis($fromMillis(1521801216617, "[Y0001]-[M01]-[D01]T[H01]:[m01]:[s01].[f001][Z01:01]", tz), "[Y0001]-[M01]-[D01]T[H01]:[m01]:[s01].[f001][Z01:01]") & tz & tag`,
+	// a (possibly shared) input array extended by one item: the array itself stays as it is
+	`$string($append(arr, [n])) & $string($append(arr, tag)) & tag`,
+	`$count($append($append(arr, [tag]), [n, tag])) & $string($append(items.v, [n])) & tag`,
 }
 
 func c06Input(i int, extra string) string {
@@ -87,7 +93,8 @@ func c06Input(i int, extra string) string {
 		"tag":   fmt.Sprintf("g%d-x%d", i, i*7),
 		"a":     fmt.Sprintf("%dabcz%d", i, i),
 		"n":     float64(i + 1),
-		"arr":   []interface{}{float64(i + 3), float64(1), float64(i + 2)},
+		"tz":    fmt.Sprintf("%+03d%02d", (i*5)%27-13, (i%2)*30),
+		"arr":  []interface{}{float64(i + 3), float64(1), float64(i + 2)},
 		"o":     map[string]interface{}{"k": float64(i)},
 		"items": []interface{}{map[string]interface{}{"k": "b", "v": float64(i)}, map[string]interface{}{"k": "a", "v": float64(i + 10)}},
 	}
